@@ -19,7 +19,7 @@ var (
 // the registered peers as candidates, and any of them for the session).
 func verifC18Base(nOps int) {
 	peers := [...]string{"a", "b"}
-	session := ""        // peer of the running session ("" = none)
+	session := "" // peer of the running session ("" = none)
 	removed := map[string]bool{}
 	terminated := false
 	nSel := 0
